@@ -507,7 +507,9 @@ func c02RootOfTrust(r *core.Run, w *world.World, A, B, C *world.PKI, qA, qB *wor
 		if len(pemB) > size {
 			size = len(pemB)
 		}
-		pad := func(b []byte) []byte { return append(append([]byte(nil), b...), bytes.Repeat([]byte("\n"), size-len(b))...) }
+		pad := func(b []byte) []byte {
+			return append(append([]byte(nil), b...), bytes.Repeat([]byte("\n"), size-len(b))...)
+		}
 		stamp := w.Epoch
 		load := func(content []byte) *verify.Options {
 			os.WriteFile(p, pad(content), 0o600)
